@@ -46,6 +46,21 @@ CHECKS = {
               'Arithmetic contract asserted on every record produced; '
               'contract evaluations counted (zero = inconclusive).',
               'DESIGN.md section 2 C03', _BASE_NOTE),
+    'C04': _e('exploration',
+              'schedule-controlled differential monitor: every parallel '
+              'stage re-run on identical files in fresh interpreters while a '
+              'multiprocessing.Process proxy serialises its workers in '
+              'chosen completion orders (turnstile; every permutation of up '
+              'to 4 workers in the thorough tier), with random delays, '
+              'varying PYTHONHASHSEED and equal-chunk worker counts; '
+              'outputs compared bitwise; the proxy\'s finish log proves the '
+              'order that actually happened',
+              'All k! completion orders for k<=4 workers per stage in the '
+              'thorough tier; sampled in the quick tier.',
+              'DESIGN.md section 2 C04',
+              _BASE_NOTE + ' Completion / write order of worker processes '
+              'is the controllable schedule space; instruction-level '
+              'interleavings inside a worker touch no shared state.'),
     'C05': _e('exploration',
               'reference-model monitor on the real AnnDataRowIterator '
               '(iteration, get_chunk, get_batch, __getitem__): files written '
